@@ -120,7 +120,7 @@ def main(tier, replay):
         probe = os.path.join(wd, "shardprobe")
         vlib.go_build("./cmd/shardprobe", probe)
         sp = os.path.join(wd, "sp.ndjson")
-        per = 40 if tier == "quick" else 400
+        per = 400 if tier == "quick" else 4000
         r = vlib.run([probe, str(seed), str(per), sp], timeout=600)
         if r.returncode != 0:
             raise Infra("shardprobe failed: " + r.stderr[-2000:])
